@@ -453,6 +453,13 @@ fn run_family(seed: u64, f: u64, q_per_fam: usize) -> FamOut {
         let q = g.query(&mut rng, t);
         queries.push(if rng.chance(1, 12) { gen::invalidate(&mut rng, &q) } else { q });
     }
+    if f % 5 == 0 {
+        // two string nodes compared with each other, one a prefix / an infix of the other (the sharing
+        // stub keeps such strings in one buffer)
+        for q in ["$.elems[?@ == $.x.a]", "$.elems[?@ != $.x.a]", "$.list[?@ == $.elems[2]]", "$.elems[?@ == $.list[0]]", "$..[?@.a == $.x.a]", "$.elems[?@ <= $.x.a]", "$.elems[?@ >= $.elems[5].a]", "$..[?@ == $.elems[1]]", "$[?@.a == $.elems[2]]"] {
+            queries.push(q.to_string());
+        }
+    }
     if f % 6 == 1 {
         for q in ["$..[?count(@.*) == 4]", "$.jobs[?count(@.*) >= 3]", "$[?count(@..*) > 10]", "$..[?count(@[*]) == 2]", "$..[?count(@.*) == 2]", "$.jobs[?count(@['on','off','none']) == 3]", "$[?count(@.*) != count(@..*)]", "$.jobs[?@.cfg == $.dflt]", "$.jobs[?@.cfg != $.dflt]", "$[?@ == $.dflt]", "$.jobs[?@ == $.jobs[0]]", "$.jobs[?@.cfg == @.cfg]", "$..[?@ == $.flags]"] {
             queries.push(q.to_string());
@@ -862,7 +869,7 @@ pub fn drive(tier_name: &str, seed: u64, workers: usize) -> i32 {
         "simulated_time": format!("{} scheduler steps in the scheduled class; the system under test reads no clock", threaded_steps),
         "faults_injected": {"client_abort": threaded_faults},
         "real_components": ["jsonpath-rust parser and evaluator (generic code instantiated at SimDoc and at serde_json::Value)", "regex", "pest", "Value's extension_custom (the stub delegates to it)"],
-        "stubbed_components": ["the document store: SimDoc, a second Queryable implementation with 8 personalities, and FatDoc, the same view in a node type of about half a kilobyte; ShareDoc, a third implementation with hash-consed subtrees and flyweight null/true/false members", "OS scheduling in the scheduled class"],
+        "stubbed_components": ["the document store: SimDoc, a second Queryable implementation with 8 personalities, and FatDoc, the same view in a node type of about half a kilobyte; ShareDoc, a third implementation with hash-consed subtrees, flyweight null/true/false members and string values that are slices of shared buffers", "OS scheduling in the scheduled class"],
         "replay": replay_path.as_ref().map(|p: &std::path::PathBuf| p.display().to_string()),
     });
     report::write_evidence(&report::Evidence {
